@@ -1,4 +1,4 @@
-import LzmaVerif.Proofs.Xz
+import LzmaVerif.Proofs.XzForged
 import LzmaVerif.Proofs.LzipFile
 /-!
 # C04 — corrupted XZ/LZIP input is never returned as valid different data
@@ -13,15 +13,24 @@ agree.  Theorems about the models, for EVERY input byte string:
   and the output is the concatenation of those blocks;
 * `lzip_acceptance_implies_verified_trailers` – if the LZIP reader accepts, the input is, byte for byte,
   what the writer model produces for the decoded members (header, stream, CRC-32, data size, member size),
-  followed by trailing bytes that do not start with the magic;
+  followed by trailing bytes that do not start with the magic (`lzip_acceptance_tail_is_trailing`: and are not a
+  fragment of the magic either — an input ending inside a further member's magic is `UnexpectedEof`);
 * `xz_rejects_non_xz`, `lzip_rejects_non_lzip` – non-empty input without the magic is an error, never an
   empty success; `lzip_damaged_header_is_error(_later)` – a member whose magic is intact but whose
   version or dictionary byte is damaged is an error, for the first and for every later member.
 
+* `xz_swapped_blocks_detected` – "swapped regions are an error or the original": exchanging two adjacent blocks
+  of a written stream whose compressed or uncompressed sizes differ is an error (the reader compares the Index
+  records, in order, with the sizes of the blocks it decoded); `xz_forged_index_rejected`,
+  `xz_forged_backward_size_rejected` – so is any other record list in the Index (CRC recomputed) and any other
+  Backward Size in the footer (CRC recomputed);
+* `xz_swapped_equal_blocks_accepted` – the residual, a limitation of the FORMAT: two adjacent blocks with equal
+  compressed and uncompressed sizes have equal Index records, the file with the two exchanged is exactly the
+  writer's stream for the exchanged data and is accepted as such (XZ has one check per block and none over the
+  whole stream; `xz -t` accepts it too).
+
 What no reader can exclude is a corruption that also matches the 32/64/256-bit check: "is the original"
 follows from these theorems under the hypothesis that the check separates the original from the output.
-The XZ reader does not verify the index's size fields nor the footer's backward size (observation recorded
-in DESIGN.md): such edits yield the original data, which the property allows.
 -/
 namespace LzmaVerif.Props.C04
 open LzmaVerif
@@ -37,6 +46,57 @@ theorem xz_rejects_non_xz (multi : Bool) (inp : List Nat) (cap : Nat) (h : inp.t
 theorem xz_never_overconsumes (multi : Bool) (inp : List Nat) (cap : Nat) (d : List Nat) (n : Nat) (b : List Xz.Block)
     (h : Xz.decode multi inp cap = .ok d n b) : n ≤ inp.length := Xz.decode_consumed_le multi inp cap d n b h
 
+theorem xz_swapped_blocks_detected (multi : Bool) (c : Xz.Check) (fs : List Xz.Filter) (hfs : Xz.FiltersOk fs)
+    (pre post : List (List Nat × List Nat)) (b₁ b₂ : List Nat × List Nat)
+    (hb : ∀ b ∈ pre ++ b₁ :: b₂ :: post,
+      Xz.PayloadOk (Xz.readerDict fs) b.1 (Xz.applyFilters fs b.2) ∧ Xz.unfilter fs (Xz.applyFilters fs b.2) = b.2)
+    (hsz : Xz.SizesOk63 c fs (pre ++ b₁ :: b₂ :: post))
+    (hne : b₁.1.length ≠ b₂.1.length ∨ b₁.2.length ≠ b₂.2.length)
+    (cap : Nat) (hcap : (((pre ++ b₁ :: b₂ :: post).map (·.2)).flatten).length ≤ cap) :
+    Xz.decode multi (Xz.swappedStream c fs pre post b₁ b₂) cap = .err .invalidData :=
+  Xz.block_swap_detected multi c fs hfs pre post b₁ b₂ hb hsz hne cap hcap
+
+/-- `swappedStream` is the written stream with the byte ranges of the two blocks exchanged -/
+theorem xz_swappedStream_is_the_swap (c : Xz.Check) (fs : List Xz.Filter) (pre post : List (List Nat × List Nat))
+    (b₁ b₂ : List Nat × List Nat) :
+    ∃ hdr A B₁ B₂ C tail, Xz.streamBytes c fs (pre ++ b₁ :: b₂ :: post) = hdr ++ (A ++ (B₁ ++ (B₂ ++ (C ++ tail)))) ∧
+      Xz.swappedStream c fs pre post b₁ b₂ = hdr ++ (A ++ (B₂ ++ (B₁ ++ (C ++ tail)))) ∧
+      B₁ = (Xz.blockBytes c fs b₁.1 b₁.2).1 ∧ B₂ = (Xz.blockBytes c fs b₂.1 b₂.2).1 :=
+  ⟨_, _, _, _, _, _, Xz.streamBytes_split c fs pre post b₁ b₂, rfl, rfl, rfl⟩
+
+theorem xz_swapped_equal_blocks_accepted (c : Xz.Check) (fs : List Xz.Filter) (hfs : Xz.FiltersOk fs)
+    (pre post : List (List Nat × List Nat)) (b₁ b₂ : List Nat × List Nat)
+    (hb : ∀ b ∈ pre ++ b₁ :: b₂ :: post,
+      Xz.PayloadOk (Xz.readerDict fs) b.1 (Xz.applyFilters fs b.2) ∧ Xz.unfilter fs (Xz.applyFilters fs b.2) = b.2)
+    (hsz : Xz.SizesOk c fs (pre ++ b₁ :: b₂ :: post))
+    (heq : b₁.1.length = b₂.1.length ∧ b₁.2.length = b₂.2.length)
+    (rest : List Nat) (cap : Nat) (hcap : (((pre ++ b₁ :: b₂ :: post).map (·.2)).flatten).length ≤ cap) :
+    Xz.swappedStream c fs pre post b₁ b₂ = Xz.streamBytes c fs (pre ++ b₂ :: b₁ :: post) ∧
+    Xz.decode false (Xz.swappedStream c fs pre post b₁ b₂ ++ rest) cap
+      = .ok ((pre ++ b₂ :: b₁ :: post).map (·.2)).flatten (Xz.swappedStream c fs pre post b₁ b₂).length
+          ((pre ++ b₂ :: b₁ :: post).map (Xz.blkOf fs)).reverse :=
+  Xz.block_swap_same_sizes_accepted c fs hfs pre post b₁ b₂ hb hsz heq rest cap hcap
+
+theorem xz_forged_index_rejected (multi : Bool) (c : Xz.Check) (fs : List Xz.Filter) (hfs : Xz.FiltersOk fs)
+    (blocks : List (List Nat × List Nat))
+    (hb : ∀ b ∈ blocks, Xz.PayloadOk (Xz.readerDict fs) b.1 (Xz.applyFilters fs b.2) ∧
+      Xz.unfilter fs (Xz.applyFilters fs b.2) = b.2)
+    (rs : List (Nat × Nat)) (hn : rs.length < 2 ^ 63) (hrs : ∀ x ∈ rs, Xz.RecOk x) (hne : rs ≠ Xz.recsOf c fs blocks)
+    (n : Nat) (cap : Nat) (hcap : ((blocks.map (·.2)).flatten).length ≤ cap) :
+    Xz.decode multi (Xz.forgedStream c fs blocks rs n) cap = .err .invalidData :=
+  Xz.reader_rejects_forged_index multi c fs hfs blocks hb rs hn hrs hne n cap hcap
+
+theorem xz_forged_backward_size_rejected (multi : Bool) (c : Xz.Check) (fs : List Xz.Filter) (hfs : Xz.FiltersOk fs)
+    (blocks : List (List Nat × List Nat))
+    (hb : ∀ b ∈ blocks, Xz.PayloadOk (Xz.readerDict fs) b.1 (Xz.applyFilters fs b.2) ∧
+      Xz.unfilter fs (Xz.applyFilters fs b.2) = b.2)
+    (hsz : Xz.SizesOk63 c fs blocks)
+    (n : Nat) (hn4 : n % 4 = 0) (hge : 4 ≤ n) (hle : n ≤ 2 ^ 34)
+    (hne : n ≠ (Xz.indexBytes (Xz.recsOf c fs blocks)).length)
+    (cap : Nat) (hcap : ((blocks.map (·.2)).flatten).length ≤ cap) :
+    Xz.decode multi (Xz.forgedStream c fs blocks (Xz.recsOf c fs blocks) n) cap = .err .invalidData :=
+  Xz.reader_rejects_wrong_backward_size multi c fs hfs blocks hb hsz n hn4 hge hle hne cap hcap
+
 open LzipFile in
 theorem lzip_acceptance_implies_verified_trailers (inp : List Nat) (cap : Nat) (data : List Nat) (consumed : Nat)
     (recs : List Member) (hb : Bytes inp) (h : decode inp cap = .ok data consumed recs) :
@@ -45,6 +105,14 @@ theorem lzip_acceptance_implies_verified_trailers (inp : List Nat) (cap : Nat) (
       consumed = (reassemble recs.reverse).length + min 4 tail.length ∧
       (recs = [] → inp = []) ∧ ∀ m ∈ recs, MemberDecodes m :=
   decode_accept inp cap data consumed recs hb h
+
+open LzipFile in
+/-- what follows the accepted members is trailing data: it neither starts with the magic nor is a fragment
+    (non-empty proper prefix) of it — a file that ends inside a further member's magic is not accepted -/
+theorem lzip_acceptance_tail_is_trailing (inp : List Nat) (cap : Nat) (data : List Nat) (consumed : Nat)
+    (recs : List Member) (hb : Bytes inp) (h : decode inp cap = .ok data consumed recs) :
+    ∃ tail, inp = reassemble recs.reverse ++ tail ∧ tail.take 4 ≠ Consts.LZIP_MAGIC ∧ TrailingOk tail :=
+  decode_accept_trailing inp cap data consumed recs hb h
 
 theorem lzip_rejects_non_lzip (inp : List Nat) (cap : Nat) (hne : inp ≠ []) (hm : inp.take 4 ≠ Consts.LZIP_MAGIC) :
     LzipFile.decode inp cap = .err .invalidData := LzipFile.decode_not_lzip inp cap hne hm
